@@ -14,3 +14,4 @@ import BnpVerif.Props.C10
 #print axioms C10.stream_per_chromosome
 #print axioms C10.location_inside
 #print axioms C10.geometry_sort_genome_order
+#print axioms C10.name_lookup_partial
